@@ -130,6 +130,9 @@ func refAddr(v string) (string, bool) {
 }
 
 func refHexBytes(v string) (string, bool) {
+	if v == "" {
+		return "", false // an empty element denotes nothing (the empty byte string is written "0x")
+	}
 	h := strip0x(v)
 	if len(h)%2 != 0 || !isHexDigits(h) {
 		return "", false
